@@ -19,8 +19,8 @@ def from_impl(r):
         return ('b', r)
     if isinstance(r, RawError):
         v = r.value
-        if v.startswith(UNKNOWN):
-            v = UNKNOWN
+        if UNKNOWN in v:
+            v = v[:v.index(UNKNOWN) + len(UNKNOWN)]
         return ('e', v)
     if isinstance(r, list):
         return [from_impl(x) for x in r]
